@@ -256,7 +256,7 @@ func ruleC14abc(c *Ctx) []*report.Result {
 		r.Undecide("fmtforward.MakeFormat not found")
 		return []*report.Result{r}
 	}
-	it := engine.New(engine.Config{Prog: c.P.Prog, InModule: c.P.InModule, Hooks: &fwdHooks{}, NoMerge: true, MaxStates: 5000})
+	it := engine.New(engine.Config{Prog: c.P.Prog, InModule: c.P.InModule, Hooks: &fwdHooks{}, NoMerge: true, MaxStates: 5000, Ambient: []string{"cfg", "trace"}})
 	type verbCase struct {
 		name string
 		val  engine.AbsVal
@@ -401,7 +401,10 @@ func ruleC14d(c *Ctx) []*report.Result {
 			continue
 		}
 		// helpers of the wrapper package are read in place
-		fl := flatten(fn, func(g *ssa.Function) bool { return g.Pkg == fn.Pkg })
+		fl := flatten(fn, func(g *ssa.Function) bool {
+			// helpers of the wrapper package, and of the forwarding package other than the forwarder itself
+			return g.Pkg == fn.Pkg || (pkgPathOf(g) == pkgFwd && g.String() != pkgFwd+".ReproducePrintf")
+		})
 		calls := fl.calls
 		pos := c.P.Pos(fn.Pos())
 		if !fl.straight || len(calls) != 1 || calls[0].Common().StaticCallee() == nil || calls[0].Common().StaticCallee().String() != pkgFwd+".ReproducePrintf" {
